@@ -5,6 +5,7 @@ import (
 
 	jschema "github.com/jsightapi/jsight-schema-go-library"
 	"github.com/jsightapi/jsight-schema-go-library/bytes"
+	"github.com/jsightapi/jsight-schema-go-library/errors"
 	"github.com/jsightapi/jsight-schema-go-library/internal/json"
 	"github.com/jsightapi/jsight-schema-go-library/internal/lexeme"
 )
@@ -51,6 +52,10 @@ func (n *ObjectNode) Grow(lex lexeme.LexEvent) (Node, bool) {
 	case lexeme.ObjectBegin, lexeme.ObjectKeyBegin, lexeme.ObjectValueEnd:
 
 	case lexeme.KeyShortcutEnd:
+		if !lex.Value().IsUserTypeName() {
+			// A bare "@": the scanner lets a key shortcut end before its first name byte.
+			panic(errors.Format(errors.ErrInvalidSchemaName, lex.Value().String()))
+		}
 		key := lex.Value().Unquote().String()
 		n.addKey(key, lex.Value().IsUserTypeName(), lex) // can panic
 
